@@ -422,8 +422,20 @@ func c04Check(c *fw.Ctx, label string, f *dst.File, sites []decSite, baseTokens 
 		}
 	}
 	c.Count("sites", int64(len(sites)))
-	// (6) round trip of the decorated print
+	// (6) round trip of the decorated print. Judged for single-site decorations only: with every
+	// point decorated at once the output is a layout no real file has, and where a comment ends up
+	// indented is then decided by go/printer heuristics that depend on original columns (the
+	// known C01 families and more of the same kind); there the result is only counted.
 	if mode == "all" {
+		if g, err := format.Source(out); err == nil && bytes.Equal(g, out) {
+			if back, err := rtParsePrint(out); err != nil || !bytes.Equal(back, out) {
+				c.Count("dense_output_roundtrip_differs(counted only)", 1)
+			} else {
+				c.Count("dense_output_roundtrip_identical", 1)
+			}
+		}
+	}
+	if strings.HasPrefix(mode, "one") {
 		if g, err := format.Source(out); err == nil && bytes.Equal(g, out) {
 			back, err := rtParsePrint(out)
 			if err != nil || !bytes.Equal(back, out) {
